@@ -586,3 +586,22 @@ impl Default for ReactCache
 }
 
 //-------------------------------------------------------------------------------------------------------------------
+
+#[cfg(feature = "verif")]
+impl ReactCache
+{
+    pub(crate) fn verif_table_entries(&self) -> crate::verif::TableEntries
+    {
+        crate::verif::TableEntries{
+            component_insertion : self.component_reactors.values().map(|r| r.insertion_callbacks.len()).sum(),
+            component_mutation  : self.component_reactors.values().map(|r| r.mutation_callbacks.len()).sum(),
+            component_removal   : self.component_reactors.values().map(|r| r.removal_callbacks.len()).sum(),
+            resource            : self.resource_reactors.values().map(|r| r.len()).sum(),
+            broadcast           : self.broadcast_reactors.values().map(|r| r.len()).sum(),
+            any_entity_event    : self.any_entity_event_reactors.values().map(|r| r.len()).sum(),
+            despawn             : self.despawn_reactors.values().map(|r| r.len()).sum(),
+        }
+    }
+}
+
+//-------------------------------------------------------------------------------------------------------------------
